@@ -89,7 +89,7 @@ impl Prop for C18 {
         ]
     }
     fn cases(&self, tier: Tier) -> u64 {
-        tier.pick(3_000, 100_000)
+        tier.pick(40000, 400000)
     }
     fn choice_len(&self) -> usize {
         4096
